@@ -29,12 +29,14 @@ def fmt_case(mbase, msize, qs, items, extra=()):
 
 
 class Func:
-    __slots__ = ("addr", "size", "psize", "name", "lines", "inls")
+    __slots__ = ("addr", "size", "psize", "name", "lines", "inls", "flines", "finls")
 
     def __init__(self, addr, size, psize, name):
         self.addr, self.size, self.psize, self.name = addr, size, psize, name
-        self.lines = []     # (addr, size, line, file)
+        self.lines = []     # (addr, size, line, file)   the block's own records, by the text
         self.inls = []      # (depth, addr, size, cfile, cline, origin)
+        self.flines = []    # records of a dropped over-long FUNC line that the parser attaches to this block
+        self.finls = []
 
 
 class Case:
@@ -66,9 +68,21 @@ def parse_case(line):
     assert t[i] == "R"
     i += 1
     c.files, c.origins, c.pubs, c.funcs, c.win = {}, {}, [], [], {4: [], 0: []}
+    c.zfuncs, c.parse_error = [], False
     cur = None
+    orph = None       # the dropped FUNC whose sub-records are being read
     while i < len(t):
         k = t[i]
+        if k in ("F", "P", "U", "W"):
+            orph = None
+        if k == "Z":
+            orph = Func(int(t[i + 1]), int(t[i + 2]), int(t[i + 3]), int(t[i + 4]))
+            c.zfuncs.append(orph)
+            i += 6
+            continue
+        if k in ("L", "I") and cur is None:
+            c.parse_error = True
+            break
         if k == "F":
             cur = None
             c.files[int(t[i + 1])] = int(t[i + 2])
@@ -85,12 +99,22 @@ def parse_case(line):
             c.funcs.append(cur)
             i += 5
         elif k == "L":
-            cur.lines.append((int(t[i + 1]), int(t[i + 2]), int(t[i + 3]), int(t[i + 4])))
+            rec = (int(t[i + 1]), int(t[i + 2]), int(t[i + 3]), int(t[i + 4]))
+            if orph is not None:
+                orph.lines.append(rec)
+                cur.flines.append(rec)
+            else:
+                cur.lines.append(rec)
             i += 5
         elif k == "I":
             d, cl, cf, og, kk = (int(x) for x in t[i + 1:i + 6])
             for j in range(kk):
-                cur.inls.append((d, int(t[i + 6 + 2 * j]), int(t[i + 7 + 2 * j]), cf, cl, og))
+                rec = (d, int(t[i + 6 + 2 * j]), int(t[i + 7 + 2 * j]), cf, cl, og)
+                if orph is not None:
+                    orph.inls.append(rec)
+                    cur.finls.append(rec)
+                else:
+                    cur.inls.append(rec)
             i += 6 + 2 * kk
         elif k == "W":
             cur = None
@@ -100,7 +124,7 @@ def parse_case(line):
             i += 6
         else:
             raise ValueError("bad item " + k)
-    c.nonoverlap = classify(c)
+    c.nonoverlap = (not c.parse_error) and classify(c)
     if len(_cache) > 200000:
         _cache.clear()
     _cache[line] = c
@@ -133,12 +157,18 @@ def clip(a, s):
 
 def classify(c):
     """records of every kind are pairwise disjoint (empty records occupy nothing)"""
-    if not disjoint([clip(f.addr, f.size) for f in c.funcs]):
+    if not disjoint([clip(f.addr, f.size) for f in c.funcs + c.zfuncs]):
         return False
+    for f in c.funcs:
+        # records of a dropped FUNC line that the parser hands to this block must stay clear of its range
+        if not all(disjoint([clip(f.addr, f.size), clip(r[0], r[1])]) for r in f.flines):
+            return False
+        if not all(disjoint([clip(f.addr, f.size), clip(e[1], e[2])]) for e in f.finls):
+            return False
     for ty in (4, 0):
         if not disjoint([clip(a, s) for (a, s, _, _) in c.win[ty]]):
             return False
-    for f in c.funcs:
+    for f in c.funcs + c.zfuncs:
         if not disjoint([clip(a, s) for (a, s, _, _) in f.lines]):
             return False
         by = {}
@@ -278,6 +308,8 @@ class C11(PropBase):
     }
 
     def canon_impl(self, case, ans, profile):
+        if ans.startswith("E;"):
+            return "E"
         return ans if not ans.startswith("P;;") else "P;;"
 
     def canon_model(self, case, ans):
@@ -339,7 +371,7 @@ class C11(PropBase):
             k = it[0]
             if k == "P":
                 rec(it[1], 1)
-            elif k in ("U", "L"):
+            elif k in ("U", "L", "Z"):
                 rec(it[1], it[2])
             elif k == "I":
                 for a, s in it[5]:
@@ -542,15 +574,36 @@ class C11(PropBase):
                 kind += "+modules"
             qs = self.queries(rng, mb, items, 40, extra)
             add(kind, fmt_case(mb, msize, qs, items, extra))
+        # dropped over-long FUNC lines (200 KB each: only a handful)
+        for n in range(12 if tier == "quick" else 60):
+            items = self.gen_nested(rng, 16)
+            out, placed = [], False
+            for j, it in enumerate(items):
+                out.append(it)
+                nxt = items[j + 1][0] if j + 1 < len(items) else None
+                if not placed and it[0] in ("U", "L", "I", "P", "F") and nxt not in ("L", "I") and rng.chance(1, 3):
+                    base = 600 + rng.below(8)
+                    out.append(("Z", base, 16, 0, 450, 170000 + rng.below(60000)))
+                    out.append(("L", base, 8, 71, 1))
+                    if rng.chance(1, 2):
+                        out.append(("I", 0, 72, 1, 1, [(base + rng.below(4), 4)]))
+                    if rng.chance(1, 3):        # a sub-record of the dropped FUNC inside an earlier FUNC's range
+                        out.append(("L", rng.below(40), 4, 73, 1))
+                    placed = True
+            qs = self.queries(rng, 0, out, 40)
+            add("dropped_func_line", fmt_case(0, U32, qs, out))
         return cases, dist, True
 
     # ------------------------------------------------------------------ oracle
     def oracle(self, case, ans, profile):
         if ans.startswith("P;;"):
             return "parsing or symbolication panicked: " + ans[3:200]
-        if ans.startswith("E;"):
-            return "harness could not parse its own symbol file: " + ans[:200]
         c = parse_case(case)
+        if c.parse_error:
+            # sub-records of a dropped over-long FUNC line with no FUNC block open: the parse fails (C09's concern)
+            return None if ans.startswith("E") else "sub-records without an open FUNC block were accepted: " + ans[:100]
+        if ans.startswith("E"):
+            return "harness could not parse its own symbol file: " + ans[:200]
         parts = ans.split(";")
         if len(parts) != 1 + len(c.qs) or not parts[0].startswith("T"):
             return "unparseable answer " + ans[:100]
@@ -658,13 +711,13 @@ class C11(PropBase):
     def sound_in(self, c, mbase, f, x, q, ps, src, inl):
         if ps != f.psize and not any(p == ps and in_r(rng_func(a, s), x) for ty in (4, 0) for (a, s, p, _) in c.win[ty]):
             return "parameter size %d at %d is neither the FUNC's nor that of a STACK WIN record covering the address" % (ps, x)
-        cover = [e for e in f.inls if e[1] <= x < e[1] + e[2]]
+        cover = [e for e in f.inls + f.finls if e[1] <= x < e[1] + e[2]]
         if src:
             fl, ln, b = src
             if b > q:
                 return "source_line_base %d exceeds the instruction %d" % (b, q)
             la = b - mbase
-            ok = any(l[0] == la and l[2] == ln and c.files.get(l[3]) == fl and in_r(rng_line(l[0], l[1]), x) for l in f.lines) or \
+            ok = any(l[0] == la and l[2] == ln and c.files.get(l[3]) == fl and in_r(rng_line(l[0], l[1]), x) for l in f.lines + f.flines) or \
                 any(e[0] == 0 and e[1] == la and e[4] == ln and c.files.get(e[3]) == fl for e in cover)
             if not ok:
                 return "source line %s at %d is neither a covering line record nor a covering depth-0 inline call site" % (src, x)
